@@ -375,6 +375,8 @@ func (m *Machine) callVsym(caller *frame, fn *ssa.Function, args []Value) (Value
 	case "vsym_ExploreSchedules":
 		m.explore = true
 		return nil, true
+	case "vsym_SettleMillis":
+		return nil, true
 	case "vsym_DelayBound":
 		m.delayBound = int(fr.conc(args[0], "vsym_DelayBound"))
 		return nil, true
@@ -399,6 +401,9 @@ func (m *Machine) callVsym(caller *frame, fn *ssa.Function, args []Value) (Value
 		// only when the harness says so); the second argument is the period in ms, which only the
 		// native runtime uses (it sleeps that long and lets the real ticker fire)
 		k := int(args[0].(*term.Term).Signed())
+		if k < 0 {
+			k = len(m.timers) - 1 // the timer created last
+		}
 		if m.fireTimer(k) {
 			return term.True, true
 		}
